@@ -228,14 +228,19 @@ impl W {
             }
         }
     }
-    /// like init_new, with an explicit turn-start hash and repetition history (values produced by the crate's
-    /// own public Zobrist functions); previous boards are `step` copies of the board
+    /// like init_new, with an explicit turn-start hash, earlier boards of the turn (oldest first; empty = `step`
+    /// copies of the board) and repetition history (oldest first; values produced by the crate's own public
+    /// Zobrist functions)
     #[allow(clippy::too_many_arguments)]
-    pub fn init_built(&mut self, w: [u64; 7], gold: bool, move_no: u64, step: u64, status: (u64, u64, u64), trapped: bool, h0: Zobrist, hist: &[Zobrist]) -> Option<GameState> {
+    pub fn init_built(&mut self, w: [u64; 7], gold: bool, move_no: u64, step: u64, status: (u64, u64, u64), trapped: bool, h0: Zobrist, prevw: &[[u64; 7]], hist: &[Zobrist]) -> Option<GameState> {
         let mut v = vec![2];
         v.extend(w);
         v.extend([gold as u64, move_no, step, status.0, status.1, status.2, trapped as u64]);
         v.push(h0.board_state_hash());
+        v.push(prevw.len() as u64);
+        for b in prevw {
+            v.extend(b.iter());
+        }
         v.extend(hist.iter().map(|z| z.board_state_hash()));
         line(&mut self.out, 'I', &v);
         let r = catch_unwind(AssertUnwindSafe(|| {
@@ -245,7 +250,11 @@ impl W {
             for z in hist {
                 hl = hl.append(*z);
             }
-            let prev: Vec<PieceBoard> = (0..step).map(|_| pb.clone()).collect();
+            let prev: Vec<PieceBoard> = if prevw.is_empty() {
+                (0..step).map(|_| pb.clone()).collect()
+            } else {
+                prevw.iter().map(|b| PieceBoard::new(b[0], b[1], b[2], b[3], b[4], b[5], b[6])).collect()
+            };
             let st = match status.0 {
                 0 => PushPullState::None,
                 1 => PushPullState::PossiblePull(Square::from_index(status.1 as u8), piece_of_code(status.2)),
@@ -862,48 +871,21 @@ pub fn g_built(w: &mut W, rng: &mut Rng, n_cases: u64) {
         let cells = random_position(rng, lo, hi, c % 4 != 0);
         let gold = rng.chance(1, 2);
         let step = if rng.chance(1, 8) { 0 } else { 1 + rng.below(3) };
-        // a status that fits the board
-        let own: Vec<usize> = (0..64).filter(|i| matches!(cells[*i], Some((g, k)) if g == gold && k != Piece::Rabbit)).collect();
-        let enemy: Vec<usize> = (0..64).filter(|i| matches!(cells[*i], Some((g, k)) if g != gold && k != Piece::Elephant)).collect();
-        let mut status = (0u64, 0u64, 0u64);
-        let want = if step == 0 { 0 } else { rng.below(3) };
-        if want == 1 && !own.is_empty() {
-            let t = own[rng.below(own.len() as u64) as usize];
-            let free: Vec<usize> = nbrs(t).into_iter().filter(|j| cells[*j].is_none()).collect();
-            if !free.is_empty() {
-                status = (1, free[rng.below(free.len() as u64) as usize] as u64, piece_code(cells[t].unwrap().1));
-            }
-        } else if want == 2 && !enemy.is_empty() {
-            let t = enemy[rng.below(enemy.len() as u64) as usize];
-            let free: Vec<usize> = nbrs(t).into_iter().filter(|j| cells[*j].is_none()).collect();
-            if !free.is_empty() {
-                status = (2, free[rng.below(free.len() as u64) as usize] as u64, piece_code(cells[t].unwrap().1));
-            }
-        }
+        let status = fit_status(&cells, gold, step, rng);
         let wds = words_of(&cells);
-        let trapped = rng.chance(1, 4);
+        let trapped = step > 0 && rng.chance(1, 4);
         let pb = PieceBoard::new(wds[0], wds[1], wds[2], wds[3], wds[4], wds[5], wds[6]);
-        let same = Zobrist::from_piece_board(pb.piece_board(), gold, 0);
-        // turn-start hash: the unchanged position, or the position with one mover piece elsewhere
-        let h0 = if rng.chance(1, 3) {
-            same
-        } else {
-            let mut c2 = cells;
-            let movers: Vec<usize> = (0..64).filter(|i| matches!(cells[*i], Some((g, _)) if g == gold)).collect();
-            if let Some(&m) = movers.get(rng.below(movers.len().max(1) as u64) as usize) {
-                let free: Vec<usize> = nbrs(m).into_iter().filter(|j| cells[*j].is_none()).collect();
-                if let Some(&f) = free.get(rng.below(free.len().max(1) as u64) as usize) {
-                    c2[f] = c2[m];
-                    c2[m] = None;
-                }
-            }
-            let w2 = words_of(&c2);
-            let pb2 = PieceBoard::new(w2[0], w2[1], w2[2], w2[3], w2[4], w2[5], w2[6]);
-            Zobrist::from_piece_board(pb2.piece_board(), gold, 0)
-        };
-        // candidate history entries: the turn-start hash, the position after a pass, after each turn-ending step
+        // earlier boards of the turn: each one plausible step before the next; for step >= 2 sometimes the turn
+        // started from the very same board (the mover walked back: passing is then not allowed)
+        let mut chain = backward_chain(&cells, gold, step, status, rng);
+        if step >= 2 && rng.chance(1, 3) {
+            chain[0] = cells;
+        }
+        let prevw: Vec<[u64; 7]> = chain.iter().map(words_of).collect();
+        let h0 = if step == 0 { Zobrist::from_piece_board(pb.piece_board(), gold, 0) } else { hash_of(&chain[0], gold) };
+        // candidate history entries: the position after a pass, after each turn-ending step
         w.begin("built");
-        let probe = match w.init_built(wds, gold, 2 + rng.below(5), step, status, trapped, h0, &[h0]) {
+        let probe = match w.init_built(wds, gold, 2 + rng.below(5), step, status, false, h0, &prevw, &[h0]) {
             Some(g) => g,
             None => {
                 w.end();
@@ -921,40 +903,53 @@ pub fn g_built(w: &mut W, rng: &mut Rng, n_cases: u64) {
                 if let Ok(n) = catch_unwind(AssertUnwindSafe(|| probe.take_action(&a))) {
                     if n.is_p1_turn_to_move() != gold {
                         if let Some(z) = n.unwrap_play_phase().hash_history().iter().next() {
-                            cands.push(*z);
+                            if !cands.contains(z) {
+                                cands.push(*z);
+                            }
                         }
                     }
                 }
             }
         }
         w.end();
-        // two variants with synthetic histories
+        // two variants with synthetic histories: every candidate occurs 0, 1 or 2 times (never more: a third
+        // occurrence is never created in a game), the newest entry is the turn-start hash as in every game
         for variant in 0..2 {
-            let mut hist: Vec<Zobrist> = vec![h0];
-            for z in cands.iter() {
-                let times = match rng.below(if variant == 0 { 4 } else { 3 }) {
-                    0 => 2,
-                    1 => 1,
-                    _ => 0,
+            let mut hist: Vec<Zobrist> = vec![];
+            for (ci, z) in cands.iter().enumerate() {
+                if *z == h0 {
+                    continue;
+                }
+                let times = if variant == 1 && ci == 0 {
+                    2
+                } else {
+                    match rng.below(if variant == 0 { 4 } else { 3 }) {
+                        0 => 2,
+                        1 => 1,
+                        _ => 0,
+                    }
                 };
-                // the pass hash is entered twice more often: it decides can_pass(true)
                 for _ in 0..times {
                     hist.push(*z);
                 }
             }
-            if variant == 1 && !cands.is_empty() {
-                hist.push(cands[0]);
-                hist.push(cands[0]);
-            }
-            // order as a game would have it is irrelevant to the count; shuffle lightly
             if hist.len() > 2 && rng.chance(1, 2) {
-                let i = 1 + rng.below(hist.len() as u64 - 1) as usize;
-                hist.swap(1, i);
+                let i = rng.below(hist.len() as u64) as usize;
+                hist.swap(0, i);
+            }
+            // the turn-start position itself may have occurred once before
+            if rng.chance(1, 3) {
+                hist.insert(0, h0);
+            }
+            hist.push(h0);
+            if trapped {
+                // a capture earlier in the turn has emptied the history (invariant of every game)
+                hist.clear();
             }
             let mv = 2 + rng.below(5);
             w.begin("built");
             let mut kids: Vec<Action> = vec![];
-            if let Some(gs) = w.init_built(wds, gold, mv, step, status, trapped, h0, &hist) {
+            if let Some(gs) = w.init_built(wds, gold, mv, step, status, trapped, h0, &prevw, &hist) {
                 w.watch(&gs, 0);
                 w.stat(&format!("built.step{}.status{}.hist{}", step, status.0, hist.len().min(9)), 1);
                 if let Ok(acts) = catch_unwind(AssertUnwindSafe(|| gs.valid_actions())) {
@@ -967,20 +962,113 @@ pub fn g_built(w: &mut W, rng: &mut Rng, n_cases: u64) {
                     break;
                 }
                 let a = kids[rng.below(kids.len() as u64) as usize];
-                if k == 0 {
-                    if let Some(gs) = w.init_built(wds, gold, mv, step, status, trapped, h0, &hist) {
-                        if let Some(n) = w.act(&gs, &a) {
-                            w.watch(&n, 0);
-                        }
-                    }
-                } else {
+                if k != 0 {
                     w.end();
                     w.begin("built");
-                    if let Some(gs) = w.init_built(wds, gold, mv, step, status, trapped, h0, &hist) {
-                        if let Some(n) = w.act(&gs, &a) {
-                            w.watch(&n, 0);
-                        }
+                }
+                if let Some(gs) = w.init_built(wds, gold, mv, step, status, trapped, h0, &prevw, &hist) {
+                    if let Some(n) = w.act(&gs, &a) {
+                        w.watch(&n, 0);
                     }
+                }
+            }
+            w.end();
+        }
+    }
+}
+
+// ---------------------------------------------------------------------------------------
+// G-immobile: the branch structure of has_move / is_terminal inside a turn.  The mover has one or two pieces, each
+// frozen by a stronger enemy neighbour (so no ordinary step exists); independently: a pull may be completable (a
+// weaker enemy piece next to the square the mover just left), the pass may be withheld (the position after a pass
+// already occurred twice) or allowed; step 1..3.  Every query is compared on the state and on its successors.
+
+pub fn g_immobile(w: &mut W, rng: &mut Rng, n: u64) {
+    for _ in 0..n {
+        let mut cells: [Cell; 64] = [None; 64];
+        let gold = rng.chance(1, 2);
+        let step = 1 + rng.below(3);
+        // the piece that moved last: P at p, came from sq (kept empty)
+        let p = (1 + rng.below(6) as usize) * 8 + 1 + rng.below(6) as usize;
+        let kp = 1 + rng.below(4) as usize; // cat..camel
+        let np = nbrs(p);
+        let sq = np[rng.below(np.len() as u64) as usize];
+        if TRAPS.contains(&p) || TRAPS.contains(&sq) {
+            continue;
+        }
+        cells[p] = Some((gold, KINDS[kp]));
+        // a freezer next to P (not on sq)
+        let fz: Vec<usize> = np.iter().cloned().filter(|j| *j != sq).collect();
+        let f = fz[rng.below(fz.len() as u64) as usize];
+        cells[f] = Some((!gold, KINDS[(kp + 1 + rng.below((5 - kp) as u64) as usize).min(5)]));
+        // a weaker enemy piece next to sq: the pull can be completed
+        let want_pull = rng.chance(2, 3);
+        let mut status = (0u64, 0u64, 0u64);
+        if want_pull {
+            let vs: Vec<usize> = nbrs(sq).into_iter().filter(|j| cells[*j].is_none() && *j != p).collect();
+            if !vs.is_empty() {
+                let v = vs[rng.below(vs.len() as u64) as usize];
+                cells[v] = Some((!gold, KINDS[rng.below(kp as u64) as usize]));
+            }
+            status = (1, sq as u64, piece_code(KINDS[kp]));
+        }
+        // sometimes a second frozen mover piece elsewhere
+        if rng.chance(1, 2) {
+            let q = (1 + rng.below(6) as usize) * 8 + 1 + rng.below(6) as usize;
+            let nq = nbrs(q);
+            if cells[q].is_none() && q != sq && !TRAPS.contains(&q) && nq.iter().all(|j| cells[*j].is_none() && *j != sq) {
+                let kq = rng.below(4) as usize;
+                if !(kq == 0 && ((gold && q / 8 == 0) || (!gold && q / 8 == 7))) {
+                    cells[q] = Some((gold, KINDS[kq]));
+                    cells[nq[rng.below(nq.len() as u64) as usize]] = Some((!gold, KINDS[kq + 1 + rng.below(2) as usize]));
+                }
+            }
+        }
+        // the enemy keeps a rabbit somewhere
+        for sqr in [8 + 7usize, 6 * 8] {
+            if cells[sqr].is_none() && sqr != sq && nbrs(sqr).iter().all(|j| cells[*j].is_none()) {
+                cells[sqr] = Some((!gold, Piece::Rabbit));
+                break;
+            }
+        }
+        legalize(&mut cells);
+        if cells[p].is_none() || cells[sq].is_some() {
+            continue;
+        }
+        let wds = words_of(&cells);
+        let chain = backward_chain(&cells, gold, step, status, rng);
+        let prevw: Vec<[u64; 7]> = chain.iter().map(words_of).collect();
+        let h0 = hash_of(&chain[0], gold);
+        let pb = PieceBoard::new(wds[0], wds[1], wds[2], wds[3], wds[4], wds[5], wds[6]);
+        let pass_hash = Zobrist::from_piece_board(pb.piece_board(), gold, step as usize).pass(step as usize);
+        let mode = rng.below(3); // 0: pass allowed, 1: position after the pass occurred once, 2: twice (withheld)
+        let mut hist: Vec<Zobrist> = vec![];
+        for _ in 0..mode {
+            hist.push(pass_hash);
+        }
+        if rng.chance(1, 3) {
+            hist.insert(0, h0);
+        }
+        hist.push(h0);
+        let mv = 2 + rng.below(5);
+        w.begin("immobile");
+        let gs = match w.init_built(wds, gold, mv, step, status, false, h0, &prevw, &hist) {
+            Some(g) => g,
+            None => {
+                w.end();
+                continue;
+            }
+        };
+        w.watch(&gs, 0);
+        let acts = catch_unwind(AssertUnwindSafe(|| gs.valid_actions_no_rep())).unwrap_or_default();
+        let offered = catch_unwind(AssertUnwindSafe(|| gs.valid_actions())).unwrap_or_default();
+        w.stat(&format!("immobile.step{}.pull{}.passmode{}.offered{}", step, status.0, mode, offered.len().min(3)), 1);
+        w.end();
+        for a in acts {
+            w.begin("immobile");
+            if let Some(g2) = w.init_built(wds, gold, mv, step, status, false, h0, &prevw, &hist) {
+                if let Some(nx) = w.act(&g2, &a) {
+                    w.watch(&nx, 0);
                 }
             }
             w.end();
@@ -996,6 +1084,88 @@ pub fn g_built(w: &mut W, rng: &mut Rng, n_cases: u64) {
 // the trap scan are thus compared for the first, a middle and the LAST step of a turn and for steps of own pieces,
 // pull completions and push completions alike.
 
+
+pub fn rank(k: Piece) -> u64 {
+    match k {
+        Piece::Rabbit => 0,
+        Piece::Cat => 1,
+        Piece::Dog => 2,
+        Piece::Horse => 3,
+        Piece::Camel => 4,
+        Piece::Elephant => 5,
+    }
+}
+
+pub fn is_frozen(cells: &[Cell; 64], i: usize) -> bool {
+    match cells[i] {
+        None => false,
+        Some((o, k)) => {
+            let ns = nbrs(i);
+            let friend = ns.iter().any(|j| matches!(cells[*j], Some((g, _)) if g == o));
+            let enemy = ns.iter().any(|j| matches!(cells[*j], Some((g, k2)) if g != o && rank(k2) > rank(k)));
+            enemy && !friend
+        }
+    }
+}
+
+/// the board one step earlier: for a pending status the step that produced it is undone; otherwise a mover's
+/// piece is put back on a neighbouring empty square it could have come from
+pub fn undo_step(cells: &[Cell; 64], gold: bool, status: (u64, u64, u64), rng: &mut Rng) -> [Cell; 64] {
+    let mut c = *cells;
+    if status.0 == 1 || status.0 == 2 {
+        let sq = status.1 as usize;
+        let owner = if status.0 == 1 { gold } else { !gold };
+        let k = piece_of_code(status.2);
+        let cand: Vec<usize> = nbrs(sq).into_iter().filter(|j| cells[*j] == Some((owner, k))).collect();
+        if !cand.is_empty() && cells[sq].is_none() {
+            let y = cand[rng.below(cand.len() as u64) as usize];
+            c[sq] = c[y];
+            c[y] = None;
+        }
+        return c;
+    }
+    let movers: Vec<usize> = (0..64).filter(|i| matches!(cells[*i], Some((g, _)) if g == gold)).collect();
+    for _ in 0..8 {
+        if movers.is_empty() {
+            break;
+        }
+        let m = movers[rng.below(movers.len() as u64) as usize];
+        let (_, k) = cells[m].unwrap();
+        let from: Vec<usize> = nbrs(m)
+            .into_iter()
+            .filter(|j| cells[*j].is_none())
+            .filter(|j| k != Piece::Rabbit || if gold { j / 8 >= m / 8 } else { j / 8 <= m / 8 })
+            .collect();
+        if from.is_empty() {
+            continue;
+        }
+        let f = from[rng.below(from.len() as u64) as usize];
+        c[f] = c[m];
+        c[m] = None;
+        break;
+    }
+    c
+}
+
+/// earlier boards of the turn, oldest first (`step` of them), ending with the board before the last step
+pub fn backward_chain(cells: &[Cell; 64], gold: bool, step: u64, status: (u64, u64, u64), rng: &mut Rng) -> Vec<[Cell; 64]> {
+    let mut chain: Vec<[Cell; 64]> = vec![];
+    let mut cur = *cells;
+    let mut st = status;
+    for _ in 0..step {
+        cur = undo_step(&cur, gold, st, rng);
+        st = (0, 0, 0);
+        chain.push(cur);
+    }
+    chain.reverse();
+    chain
+}
+
+pub fn hash_of(cells: &[Cell; 64], gold: bool) -> Zobrist {
+    let w = words_of(cells);
+    Zobrist::from_piece_board(PieceBoard::new(w[0], w[1], w[2], w[3], w[4], w[5], w[6]).piece_board(), gold, 0)
+}
+
 pub fn fit_status(cells: &[Cell; 64], gold: bool, step: u64, rng: &mut Rng) -> (u64, u64, u64) {
     let own: Vec<usize> = (0..64).filter(|i| matches!(cells[*i], Some((g, k)) if g == gold && k != Piece::Rabbit)).collect();
     let enemy: Vec<usize> = (0..64).filter(|i| matches!(cells[*i], Some((g, k)) if g != gold && k != Piece::Elephant)).collect();
@@ -1008,9 +1178,15 @@ pub fn fit_status(cells: &[Cell; 64], gold: bool, step: u64, rng: &mut Rng) -> (
         }
     } else if want == 2 && !enemy.is_empty() {
         let t = enemy[rng.below(enemy.len() as u64) as usize];
-        let free: Vec<usize> = nbrs(t).into_iter().filter(|j| cells[*j].is_none()).collect();
+        let kt = cells[t].unwrap().1;
+        // the vacated square must have an unfrozen stronger piece of the mover next to it (the pusher)
+        let free: Vec<usize> = nbrs(t)
+            .into_iter()
+            .filter(|j| cells[*j].is_none())
+            .filter(|j| nbrs(*j).iter().any(|p| matches!(cells[*p], Some((g, k)) if g == gold && rank(k) > rank(kt)) && !is_frozen(cells, *p)))
+            .collect();
         if !free.is_empty() {
-            return (2, free[rng.below(free.len() as u64) as usize] as u64, piece_code(cells[t].unwrap().1));
+            return (2, free[rng.below(free.len() as u64) as usize] as u64, piece_code(kt));
         }
     }
     (0, 0, 0)
@@ -1064,12 +1240,15 @@ pub fn g_trap(w: &mut W, rng: &mut Rng, n_states: u64) {
         let step = rng.below(4);
         let status = fit_status(&cells, gold, step, rng);
         let wds = words_of(&cells);
-        let trapped = rng.chance(1, 4);
-        // a turn-start hash that differs from the current position (so that a pass is possible)
-        let other = Zobrist::from_piece_board(PieceBoard::new(0, 0, 0, 0, 0, 0, 0).piece_board(), gold, 0);
+        let trapped = step > 0 && rng.chance(1, 4);
+        // earlier boards of the turn, each one plausible step before the next; the turn-start hash is that of the oldest
+        let chain = backward_chain(&cells, gold, step, status, rng);
+        let prevw: Vec<[u64; 7]> = chain.iter().map(words_of).collect();
+        let other = if step == 0 { hash_of(&cells, gold) } else { hash_of(&chain[0], gold) };
         let mv = 2 + rng.below(5);
         w.begin("trap");
-        let gs = match w.init_built(wds, gold, mv, step, status, trapped, other, &[other]) {
+        let hist0: Vec<Zobrist> = if trapped { vec![] } else { vec![other] };
+        let gs = match w.init_built(wds, gold, mv, step, status, trapped, other, &prevw, &hist0) {
             Some(g) => g,
             None => {
                 w.end();
@@ -1082,7 +1261,7 @@ pub fn g_trap(w: &mut W, rng: &mut Rng, n_states: u64) {
         w.end();
         for a in acts {
             w.begin("trap");
-            if let Some(g2) = w.init_built(wds, gold, mv, step, status, trapped, other, &[other]) {
+            if let Some(g2) = w.init_built(wds, gold, mv, step, status, trapped, other, &prevw, &hist0) {
                 if let Some(n) = w.act(&g2, &a) {
                     w.watch(&n, 0);
                     if n.piece_board().bits_by_piece_type(Piece::Rabbit).count_ones() as u64
@@ -1267,13 +1446,19 @@ pub fn g_matrix(w: &mut W, rng: &mut Rng, variants: u64) {
                     if cells[m].is_none() || cells[d].is_some() {
                         continue;
                     }
+                    if mtype == 4 && is_frozen(&cells, m) {
+                        continue;
+                    }
                     let wds = words_of(&cells);
-                    let trapped = rng.chance(1, 5);
-                    let other = Zobrist::from_piece_board(PieceBoard::new(0, 0, 0, 0, 0, 0, 0).piece_board(), gold, 0);
+                    let trapped = step > 0 && rng.chance(1, 5);
+                    let chain = backward_chain(&cells, gold, step, status, rng);
+                    let prevw: Vec<[u64; 7]> = chain.iter().map(words_of).collect();
+                    let other = if step == 0 { hash_of(&cells, gold) } else { hash_of(&chain[0], gold) };
                     let mv = 2 + rng.below(5);
                     let intended = dir_between(m, d).map(|dd| Action::Move(Square::from_index(m as u8), dd));
                     w.begin("matrix");
-                    let gs = match w.init_built(wds, gold, mv, step, status, trapped, other, &[other]) {
+                    let hist0: Vec<Zobrist> = if trapped { vec![] } else { vec![other] };
+        let gs = match w.init_built(wds, gold, mv, step, status, trapped, other, &prevw, &hist0) {
                         Some(g) => g,
                         None => {
                             w.end();
@@ -1288,7 +1473,7 @@ pub fn g_matrix(w: &mut W, rng: &mut Rng, variants: u64) {
                     let _ = variant;
                     for a in acts {
                         w.begin("matrix");
-                        if let Some(g2) = w.init_built(wds, gold, mv, step, status, trapped, other, &[other]) {
+                        if let Some(g2) = w.init_built(wds, gold, mv, step, status, trapped, other, &prevw, &hist0) {
                             if let Some(n) = w.act(&g2, &a) {
                                 w.watch(&n, 0);
                             }
